@@ -37,6 +37,21 @@ import (
 
 func init() { vh.Register("C10", runC10) }
 
+// Extension point: further case families live in c10_*.go and append themselves here from an
+// init().  Kind is the "kind" tag of the family's cases (replay dispatch); Fixed are cases run
+// first on every seed; Gen draws one case; Parse reads a replayed case; One runs one case
+// against the oracle and the implementation and reports like the built-in kinds.
+type c10Family struct {
+	Kind  string
+	Rule  string
+	Fixed func() []any
+	Gen   func(r *vh.Rand) any
+	Parse func(raw []byte) (any, error)
+	One   func(ctx *vh.Ctx, c any) error
+}
+
+var c10Extra []c10Family
+
 // ---------------------------------------------------------------- case language
 
 type c10Hd struct {
@@ -1538,6 +1553,15 @@ func runC10(ctx *vh.Ctx) error {
 		if err := json.Unmarshal(ctx.Replay, &probe); err != nil {
 			return err
 		}
+		for _, f := range c10Extra {
+			if f.Kind == probe.Kind {
+				c, err := f.Parse(ctx.Replay)
+				if err != nil {
+					return err
+				}
+				return f.One(ctx, c)
+			}
+		}
 		switch probe.Kind {
 		case "api":
 			var c c10Api
@@ -1566,15 +1590,30 @@ func runC10(ctx *vh.Ctx) error {
 			}
 		}
 	}
-	// kinds interleaved (4 api : 1 copies : 5 compose) so that a time budget cuts all of them evenly
-	n := ctx.N(5000, 120000)
+	for _, f := range c10Extra {
+		ctx.Res.Rule += "; " + f.Rule
+		if f.Fixed == nil {
+			continue
+		}
+		for _, c := range f.Fixed() {
+			if err := f.One(ctx, c); err != nil {
+				return err
+			}
+		}
+	}
+	// kinds interleaved (4 api : 1 copies : 5 compose : 2 extension families) so that a time
+	// budget cuts all of them evenly
+	n := ctx.N(6000, 144000)
 	for i := 0; i < n && ctx.TimeLeft(); i++ {
 		var err error
-		switch k := i % 10; {
+		switch k := i % 12; {
 		case k < 4:
 			err = c10OneApi(ctx, c10GenApi(ctx.Rng))
 		case k == 4:
 			err = c10OneCopies(ctx, c10GenCopies(ctx.Rng))
+		case k >= 10 && len(c10Extra) > 0:
+			f := c10Extra[(2*(i/12)+k-10)%len(c10Extra)]
+			err = f.One(ctx, f.Gen(ctx.Rng))
 		default:
 			err = c10OneCompose(ctx, c10GenCompose(ctx.Rng))
 		}
